@@ -20,7 +20,7 @@ OPTS = {
     "C02": {"categories": [("ok", 0.6), ("undefined", 0.3), ("conflict", 0.1)], "p_curved": 0.0, "p_multi_source": 0.6, "p_path": 0.4, "p_infeasible": 0.08,
             "p_same_expansion": 0.5, "jitters": [0.0, 0.05, 0.15]},
     "C04": {"categories": [("ok", 0.95), ("undefined", 0.0), ("conflict", 0.05)], "p_curved": 0.12, "p_multi_source": 0.3, "p_path": 0.25,
-            "p_same_expansion": 0.5, "jitters": [0.05, 0.15, 0.25]},
+            "p_same_expansion": 0.5, "jitters": [0.0, 0.05, 0.05, 0.15, 0.15, 0.25]},
 }
 
 MODES = ["uniform", "chopless_first", "asc", "desc", "uniform", "chopped_first", "uniform", "reverse"]
